@@ -59,6 +59,37 @@ fn classify(x: i32) -> &'static str {
     }
 }
 
+/// Re-adding a watched signal is a no-op also while deliveries of it have not been collected yet:
+/// `k` deliveries, (optionally two refused additions,) the re-addition through a clone of the handle,
+/// then everything is read.
+fn readd_child<E: signal_hook::iterator::exfiltrator::Exfiltrator + Default>(k: usize, refused_between: bool, e: &mut Emit)
+where
+    E::Output: Send,
+{
+    use std::panic::{catch_unwind, AssertUnwindSafe as A};
+    let mut inst = SignalsInfo::<E>::new(&[libc::SIGUSR1]).unwrap();
+    let h = inst.handle();
+    for _ in 0..k {
+        unsafe {
+            libc::raise(libc::SIGUSR1);
+        }
+    }
+    if refused_between {
+        let r1 = h.add_signal(100).is_err();
+        let r2 = catch_unwind(A(|| h.add_signal(libc::SIGKILL))).is_err();
+        e.line(&format!("refused={}{}", r1 as u8, r2 as u8));
+    }
+    let r = h.clone().add_signal(libc::SIGUSR1);
+    e.line(&format!("readd={}", if r.is_ok() { "ok" } else { "err" }));
+    let got = inst.pending().count();
+    e.line(&format!("collected={}", got));
+    unsafe {
+        libc::raise(libc::SIGUSR1);
+    }
+    e.line(&format!("next={}", inst.pending().count()));
+    e.line("done");
+}
+
 fn child<E: Ex3>(hist: &[Step], e: &mut Emit) {
     counters::install();
     for (k, &s) in PROBE.iter().enumerate() {
@@ -212,7 +243,7 @@ fn model_step(m: &mut Model, st: &Step) -> (String, Vec<u64>, Vec<i32>, usize) {
 // Schedules: add_signal of the same signal from two threads (through clones of one handle) while it
 // is being delivered; afterwards exactly one registration exists, and none once everything is gone.
 
-mod sched_part {
+pub(super) mod sched_part {
     use crate::props::reg::{fresh_registry, Disp, S1, S2};
     use crate::sched::{self, Exec, Opts, Scenario, ThreadSpec};
     use signal_hook::iterator::{Handle, Signals};
@@ -411,6 +442,45 @@ pub fn run(tier: Tier) -> BResult {
             violations.push(BViolation { message: format!("C12: {} {:?}: {}", exn[*ex], h, mm), case });
         }
     }
+    // re-adding a watched signal while deliveries of it are still uncollected
+    let mut rcells: Vec<(usize, usize, bool)> = Vec::new();
+    for ex in 0..3 {
+        for k in [1usize, 3, 7] {
+            for between in [false, true] {
+                rcells.push((ex, k, between));
+            }
+        }
+    }
+    let rc2 = rcells.clone();
+    let rprobes = run_cells(rcells.len(), 16, Duration::from_secs(30), move |i, e| {
+        let (ex, k, b) = rc2[i];
+        match ex {
+            0 => readd_child::<SignalOnly>(k, b, e),
+            1 => readd_child::<WithRawSiginfo>(k, b, e),
+            _ => readd_child::<WithOrigin>(k, b, e),
+        }
+    });
+    for (i, p) in rprobes.iter().enumerate() {
+        let (ex, k, between) = rcells[i];
+        transitions += 4;
+        let want = if ex == 0 { 1 } else { k.min(5) };
+        let case = json!({"exfiltrator": exn[ex], "history": format!("new([USR1]); {} deliveries; {}add_signal(USR1) again; read", k, if between { "two refused additions; " } else { "" })});
+        *classes.entry("re-add with uncollected deliveries".into()).or_insert(0) += 1;
+        let bad = if p.fate != Fate::Exited(0) || !p.has("done") {
+            Some(format!("the process {} (last: {:?})", p.fate.describe(), p.lines.last()))
+        } else if p.find("readd=") != Some("ok") {
+            Some("re-adding the watched signal did not return Ok".to_string())
+        } else if p.find("collected=") != Some(&want.to_string()) {
+            Some(format!("after {} deliveries and the re-addition the consumer collects {} records (expected {}: re-adding is a no-op)", k, p.find("collected=").unwrap_or("?"), want))
+        } else if p.find("next=") != Some("1") {
+            Some(format!("one more delivery afterwards yields {} records", p.find("next=").unwrap_or("?")))
+        } else {
+            None
+        };
+        if let Some(m) = bad {
+            violations.push(BViolation { message: format!("C12: {} / {}: {}", exn[ex], case["history"].as_str().unwrap_or(""), m), case });
+        }
+    }
     // schedules (engine A)
     let mut a_states = 0u64;
     let mut a_trans = 0u64;
@@ -451,7 +521,7 @@ pub fn run(tier: Tier) -> BResult {
         violations,
         exhaustive,
         caps: a_caps,
-        rule: format!("schedules: two threads add the same signal through clones of one handle while it is delivered (and the instance is dropped), every choice vector within the deviation bound on the real code; histories: every history new(list) + up to {} operations over {{add_signal(ok new / already watched / forbidden / negative / too large / OS-refused 100 / 0), clone handle, drop handle, drop instance}} from two successful constructors (one lists a signal twice), 12 failing constructor lists (rejected number first / middle / last), and add_signal(x), add_signal(x) again for every x in [-2,130]+MIN/MAX; x 3 exfiltrators; a probe after every step; reference model = {{instance alive, handle count, watched set}}; distinct = distinct model states reached", depth),
+        rule: format!("schedules: two threads add the same signal through clones of one handle while it is delivered (and the instance is dropped), every choice vector within the deviation bound on the real code; histories: every history new(list) + up to {} operations over {{add_signal(ok new / already watched / forbidden / negative / too large / OS-refused 100 / 0), clone handle, drop handle, drop instance}} from two successful constructors (one lists a signal twice), 12 failing constructor lists (rejected number first / middle / last), and add_signal(x), add_signal(x) again for every x in [-2,130]+MIN/MAX; x 3 exfiltrators; re-adding a watched signal with 1 / 3 / 7 uncollected deliveries of it (with and without refused additions in between) x 3 exfiltrators; a probe after every step; reference model = {{instance alive, handle count, watched set}}; distinct = distinct model states reached", depth),
         assumptions: vec!["wake attempts per delivery counted through the cfg(sighook_verif) scheduling point in pipe::wake".into(), "open descriptors counted through /proc/self/fd".into()],
     }
 }
